@@ -405,9 +405,9 @@ def run(chk, replay=None):
     # translator: which exponent / indices nseq.ZT and zseq.IZT use (selects the model the driver runs)
     txinfo = tx_dtseq.generate(common.REPO, os.path.join(common.VERIF, 'lean', 'Lcapy', 'Generated', 'DTSeq.lean'))
     chk.coverage['translator'] = {'tx_dtseq': txinfo}
-    broken = chk.lean(['Lcapy/Props/C13.lean', 'Lcapy/Props/C13b.lean'],
+    broken = chk.lean(['Lcapy/Props/C13.lean', 'Lcapy/Props/C13b.lean', 'Lcapy/Props/NonVacuityC13.lean'],
                       helper_files=['Lcapy/Proofs/DT.lean', 'Lcapy/Proofs/DT2.lean', 'Lcapy/Model/DT.lean', 'Lcapy/Spec/DT.lean',
-                                    'Lcapy/Driver/C13.lean', 'Lcapy/Model/CRat.lean', 'Lcapy/Generated/DTSeq.lean'],
+                                    'Lcapy/Driver/C13.lean', 'Lcapy/Model/CRat.lean', 'Lcapy/Generated/DTSeq.lean', 'Lcapy/Model/DTSel.lean'],
                       leanchecker=(chk.tier == 'thorough'))
     drv0 = chk.get_driver()
 
@@ -459,7 +459,7 @@ def run(chk, replay=None):
     QUICK[0] = quick
     gen = replay is None                      # --replay <file>: only the recorded case is re-run
     NS = 12 if quick else 20                     # samples checked per sequence
-    budget = {'zt': 185 if quick else 420, 'izt': 80 if quick else 400, 'resp': 120 if quick else 1200}
+    budget = {'zt': 150 if quick else 420, 'izt': 80 if quick else 400, 'resp': 120 if quick else 1200}
     chk.coverage['rule'] = ('zt: a case = a sum of 1-3 terms coef*n^p*a^n*base (base: impulse/step with integer delay incl. advances, '
                             'constant, cos/sin(b n + c) with Pythagorean cos/sin values) compared at 2 (quick) / 4 (thorough) random rational z and '
                             'coefficient-wise for n <= %d, plus IZT(ZT) samples; izt/filt: a case = (b, a) with a from rational simple/repeated poles; '
